@@ -132,15 +132,16 @@ def qr_cases(draw, tier, size=None):
 def long_qr_cases(draw, tier):
     Lg, sh = draw(gen.long_dim(cap=257 if tier == "quick" else 520)), draw(st.integers(1, 4))
     A, pat = draw(gen.long_qarray(Lg, sh, draw(st.sampled_from(["generic", "int"]))))
-    if sh >= 2 and draw(st.integers(0, 2)) == 0:
+    if sh >= 2 and draw(st.integers(0, 1)) == 0:
         # full column rank, but two columns coincide on a block of the rows (a row-split / tree factorisation meets a
         # rank-deficient block although the matrix is well conditioned)
         h = {0: Lg // 2, 1: Lg // 4, 2: Lg - Lg // 4}[draw(st.integers(0, 2))]
         A = A.copy()
+        jd = draw(st.integers(1, sh - 1))       # a dependent column that is FOLLOWED by another one matters most
         if draw(st.booleans()):
-            A[:h, sh - 1] = A[:h, 0]
+            A[:h, jd] = A[:h, 0]
         else:
-            A[Lg - h:, sh - 1] = A[Lg - h:, 0]
+            A[Lg - h:, jd] = A[Lg - h:, 0]
         pat = pat + ":columns_equal_on_a_row_block"
     if draw(st.booleans()):
         A = np.ascontiguousarray(np.swapaxes(A, 0, 1))
